@@ -8,7 +8,7 @@ for r in rows:
     cells=[c.strip() for c in r.strip().strip('|').split('|')]
     byseed.setdefault(cells[0],[]).append(cells)
 def key(n):
-    m=re.match(r'C(\d+)-([mno])(\d+)',n); return (int(m.group(1)),m.group(2),int(m.group(3)))
+    m=re.match(r'C(\d+)-([a-z])(\d+)',n); return (int(m.group(1)),m.group(2),int(m.group(3)))
 out=["| seeded change | what it changes | check(s) | result | first failed obligation |","|---|---|---|---|---|"]
 nd=0
 for n in sorted(byseed,key=key):
